@@ -527,7 +527,22 @@ impl<'a> Machine<'a> {
         }
     }
 
+    /// The location an expression denotes, with every subscript evaluated (once) and replaced by its value:
+    /// a location is determined when the statement (or the call that passes it by reference) starts.
+    fn freeze(&mut self, fx: usize, e: &Expr) -> R<Expr> {
+        Ok(match e {
+            Expr::Index(n, idx) if !idx.is_empty() => {
+                let ix = self.indices(fx, idx)?;
+                Expr::Index(n.clone(), ix.into_iter().map(|i| crate::gast::num(i as i64)).collect())
+            }
+            Expr::Field(base, f) => Expr::Field(Box::new(self.freeze(fx, base)?), f.clone()),
+            other => other.clone(),
+        })
+    }
+
     fn store(&mut self, fx: usize, e: &Expr, v: V) -> R<()> {
+        let frozen = self.freeze(fx, e)?;
+        let e = &frozen;
         let old = self.shape_of(fx, e)?;
         let fl = self.fix_len(fx, e);
         let nv = Self::coerce(&old, v, fl)?;
@@ -679,6 +694,7 @@ impl<'a> Machine<'a> {
         frame.sel.clear();
         // bind parameters
         let mut by_ref: Vec<(usize, String)> = vec![];
+        let mut frozen_args: Vec<Option<Expr>> = vec![];
         for (i, (p, a)) in def.params.iter().zip(args.iter()).enumerate() {
             let (pbare, psuffix) = split_suffix(&p.name);
             let pty: DeclTy = match (&p.ty, psuffix) {
@@ -696,6 +712,10 @@ impl<'a> Machine<'a> {
             }
             let is_loc = matches!(a, Expr::Var(_) | Expr::Index(..) | Expr::Field(..))
                 && !matches!(a, Expr::Var(n) if self.find_const(fx, n).is_some() || (self.find_proc(n).is_some() && !self.is_own_function_name(fx, n)));
+            // the location a by-reference argument denotes is fixed now
+            let frozen_arg = if is_loc && !p.is_array { Some(self.freeze(fx, a)?) } else { None };
+            let a = frozen_arg.as_ref().unwrap_or(a);
+            frozen_args.push(frozen_arg.clone());
             let v = if p.is_array {
                 // whole array: A() is spelled Index(name, [])
                 match a {
@@ -746,7 +766,8 @@ impl<'a> Machine<'a> {
         // copy back, left to right
         for (i, pkey) in by_ref {
             if let Some(v) = frame.vars.get(&pkey) {
-                let fl = self.fix_len(fx, &args[i]);
+                let arg: &Expr = frozen_args.get(i).and_then(|f| f.as_ref()).unwrap_or(&args[i]);
+                let fl = self.fix_len(fx, arg);
                 let v = match (v, fl) {
                     (V::S(s), Some(n)) => {
                         let mut s = s.clone();
@@ -758,7 +779,7 @@ impl<'a> Machine<'a> {
                     }
                     _ => v.clone(),
                 };
-                match &args[i] {
+                match arg {
                     Expr::Index(n, idx) if idx.is_empty() => {
                         let (f, k, _) = self.resolve(fx, n);
                         self.frames[f].vars.insert(k, v);
